@@ -87,6 +87,11 @@ type Terms struct {
 	UFs map[string][]int
 	// Vars by name
 	Vars map[string]*Term
+	// Plain disables bit-level canonicalisation (shift/mask -> extract/concat, extract
+	// pushed into arithmetic) so that word-level arithmetic reaches the solver as written;
+	// used for obligations sent to the integer-blasting back end.
+	Plain bool
+	ArithCanon bool
 }
 
 func NewTerms() *Terms {
@@ -198,6 +203,71 @@ func (ts *Terms) App(name string, w int, args ...*Term) *Term {
 	return ts.mk(OpApp, w, 0, name, args...)
 }
 
+// knownZero returns a mask of bits of t (w<=64) that are certainly zero.
+func (ts *Terms) knownZero(t *Term, depth int) uint64 {
+	if t.W > 64 || t.W == 0 {
+		return 0
+	}
+	m := mask(t.W)
+	if depth > 12 {
+		return 0
+	}
+	switch t.Op {
+	case OpConst:
+		return ^t.Val & m
+	case OpZExt:
+		return (ts.knownZero(t.Args[0], depth+1) | ^mask(t.Args[0].W)) & m
+	case OpAnd:
+		return (ts.knownZero(t.Args[0], depth+1) | ts.knownZero(t.Args[1], depth+1)) & m
+	case OpOr, OpXor:
+		return ts.knownZero(t.Args[0], depth+1) & ts.knownZero(t.Args[1], depth+1) & m
+	case OpShl:
+		if t.Args[1].Op == OpConst {
+			k := t.Args[1].Val
+			if k >= uint64(t.W) {
+				return m
+			}
+			return (ts.knownZero(t.Args[0], depth+1)<<k | mask(int(k))) & m
+		}
+	case OpLShr:
+		if t.Args[1].Op == OpConst {
+			k := t.Args[1].Val
+			if k >= uint64(t.W) {
+				return m
+			}
+			return (ts.knownZero(t.Args[0], depth+1)>>k | ^(m >> k)) & m
+		}
+	case OpMul:
+		if t.Args[1].Op == OpConst && bits.OnesCount64(t.Args[1].Val) == 1 {
+			k := uint64(bits.TrailingZeros64(t.Args[1].Val))
+			return (ts.knownZero(t.Args[0], depth+1)<<k | mask(int(k))) & m
+		}
+	case OpUDiv:
+		if t.Args[1].Op == OpConst && bits.OnesCount64(t.Args[1].Val) == 1 {
+			k := uint64(bits.TrailingZeros64(t.Args[1].Val))
+			return (ts.knownZero(t.Args[0], depth+1)>>k | ^(m >> k)) & m
+		}
+	case OpURem:
+		if t.Args[1].Op == OpConst && bits.OnesCount64(t.Args[1].Val) == 1 {
+			k := bits.TrailingZeros64(t.Args[1].Val)
+			return (ts.knownZero(t.Args[0], depth+1) | ^mask(k)) & m
+		}
+	case OpConcat:
+		lw := t.Args[1].W
+		if t.Args[0].W <= 64 {
+			return (ts.knownZero(t.Args[0], depth+1)<<uint(lw) | ts.knownZero(t.Args[1], depth+1)) & m
+		}
+	case OpExtract:
+		lo := int(t.Val & 0xffff)
+		if t.Args[0].W <= 64 {
+			return (ts.knownZero(t.Args[0], depth+1) >> uint(lo)) & m
+		}
+	case OpIte:
+		return ts.knownZero(t.Args[1], depth+1) & ts.knownZero(t.Args[2], depth+1) & m
+	}
+	return 0
+}
+
 func (ts *Terms) isAllOnes(t *Term) bool { return t.Op == OpConst && t.Val == mask(t.W) }
 func isZero(t *Term) bool              { return t.Op == OpConst && t.Val == 0 }
 
@@ -301,6 +371,29 @@ func (ts *Terms) Bin(op Op, a, b *Term) *Term {
 			return ts.Const(w, uint64(sx>>y))
 		}
 	}
+	if ts.Plain && ts.ArithCanon {
+		switch op {
+		case OpShl:
+			if b.Op == OpConst && b.Val < uint64(w) && b.Val > 0 {
+				return ts.Bin(OpMul, a, ts.Const(w, uint64(1)<<b.Val))
+			}
+		case OpLShr:
+			if b.Op == OpConst && b.Val < uint64(w) && b.Val > 0 {
+				return ts.Bin(OpUDiv, a, ts.Const(w, uint64(1)<<b.Val))
+			}
+		case OpAnd:
+			for i := 0; i < 2; i++ {
+				if b.Op == OpConst && b.Val != 0 && b.Val&(b.Val+1) == 0 && b.Val != mask(w) {
+					return ts.Bin(OpURem, a, ts.Const(w, b.Val+1))
+				}
+				a, b = b, a
+			}
+		case OpOr:
+			if ts.knownZero(a, 0)|ts.knownZero(b, 0) == mask(w) && !isZero(a) && !isZero(b) {
+				return ts.Bin(OpAdd, a, b)
+			}
+		}
+	}
 	// algebraic simplifications
 	switch op {
 	case OpAdd:
@@ -340,7 +433,7 @@ func (ts *Terms) Bin(op Op, a, b *Term) *Term {
 		if a.Op == OpConst {
 			a, b = b, a
 		}
-		if b.Op == OpConst && bits.OnesCount64(b.Val) == 1 {
+		if !ts.Plain && b.Op == OpConst && bits.OnesCount64(b.Val) == 1 {
 			return ts.Bin(OpShl, a, ts.Const(w, uint64(bits.TrailingZeros64(b.Val))))
 		}
 	case OpAnd:
@@ -359,7 +452,7 @@ func (ts *Terms) Bin(op Op, a, b *Term) *Term {
 		if a.Op == OpConst {
 			a, b = b, a
 		}
-		if b.Op == OpConst {
+		if b.Op == OpConst && !ts.Plain {
 			// mask of low k bits -> zext(extract)
 			v := b.Val
 			if v&(v+1) == 0 { // 2^k-1
@@ -386,7 +479,7 @@ func (ts *Terms) Bin(op Op, a, b *Term) *Term {
 		if ts.isAllOnes(a) || ts.isAllOnes(b) {
 			return ts.Const(w, mask(w))
 		}
-		if r := ts.orDisjoint(a, b); r != nil {
+		if r := ts.orDisjoint(a, b); r != nil && !ts.Plain {
 			return r
 		}
 	case OpXor:
@@ -406,7 +499,7 @@ func (ts *Terms) Bin(op Op, a, b *Term) *Term {
 		if isZero(a) {
 			return a
 		}
-		if b.Op == OpConst {
+		if b.Op == OpConst && !ts.Plain {
 			if b.Val >= uint64(w) {
 				return ts.Const(w, 0)
 			}
@@ -420,7 +513,7 @@ func (ts *Terms) Bin(op Op, a, b *Term) *Term {
 		if isZero(a) {
 			return a
 		}
-		if b.Op == OpConst {
+		if b.Op == OpConst && !ts.Plain {
 			if b.Val >= uint64(w) {
 				return ts.Const(w, 0)
 			}
@@ -431,7 +524,7 @@ func (ts *Terms) Bin(op Op, a, b *Term) *Term {
 		if isZero(b) {
 			return a
 		}
-		if b.Op == OpConst {
+		if b.Op == OpConst && !ts.Plain {
 			k := int(b.Val)
 			if k >= w {
 				k = w - 1
@@ -442,11 +535,11 @@ func (ts *Terms) Bin(op Op, a, b *Term) *Term {
 		if b.Op == OpConst && b.Val == 1 {
 			return a
 		}
-		if b.Op == OpConst && bits.OnesCount64(b.Val) == 1 {
+		if !ts.Plain && b.Op == OpConst && bits.OnesCount64(b.Val) == 1 {
 			return ts.Bin(OpLShr, a, ts.Const(w, uint64(bits.TrailingZeros64(b.Val))))
 		}
 	case OpURem:
-		if b.Op == OpConst && bits.OnesCount64(b.Val) == 1 {
+		if !ts.Plain && b.Op == OpConst && bits.OnesCount64(b.Val) == 1 {
 			return ts.Bin(OpAnd, a, ts.Const(w, b.Val-1))
 		}
 	}
@@ -620,13 +713,16 @@ func (ts *Terms) Extract(a *Term, hi, lo int) *Term {
 			return ts.Extract(a.Args[0], hi, lo)
 		}
 	case OpAnd, OpOr, OpXor:
+		if ts.Plain {
+			break
+		}
 		if lo == 0 || a.Args[0].Op == OpConst || a.Args[1].Op == OpConst || a.Args[0].Op == OpConcat || a.Args[1].Op == OpConcat || a.Args[0].Op == OpZExt || a.Args[1].Op == OpZExt {
 			return ts.Bin(a.Op, ts.Extract(a.Args[0], hi, lo), ts.Extract(a.Args[1], hi, lo))
 		}
 	case OpNot:
 		return ts.Not(ts.Extract(a.Args[0], hi, lo))
 	case OpAdd, OpSub, OpMul:
-		if lo == 0 {
+		if lo == 0 && !ts.Plain {
 			return ts.Bin(a.Op, ts.Extract(a.Args[0], hi, 0), ts.Extract(a.Args[1], hi, 0))
 		}
 	case OpIte:
